@@ -6,7 +6,8 @@ from harness import msggen
 
 FOREIGN = ["", "ok", "OK", "on", "ON", "rw ", "RW", "Idle ", "State", "indi.message.const", "__main__", "None",
            "xyz", "1", "Never", "Busy", "On", "rw", "OneOfMany", "never"]
-BADNUM = ["abc", "", "1e5", "1..2", "--1", "1:", ":", "٣", "1:2:3:4", "0x10", "1,5", "- 1"]
+BADNUM = ["abc", "", "1e5", "1..2", "--1", "1:", ":", "٣", "1:2:3:4", "0x10", "1,5", "- 1",
+          "nan", "NaN", "inf", "-inf", "Infinity", "1_000", "1E-3", "2.5e+10", "١٢", "+.", "1:-2"]
 
 
 def part_tree(p):
